@@ -1320,6 +1320,13 @@ insert_list:
         return (states) th->state;
     }
 
+    // the reason of an interrupt received while yielding is reported once,
+    // by the yield; it must not stay pending and fail a later, unrelated sleep
+    inline int consume_error_number(thread* th) {
+        int ret = th->error_number;
+        th->error_number = 0;
+        return ret;
+    }
     int thread_yield()
     {
         RunQ rq;
@@ -1327,7 +1334,7 @@ insert_list:
         rq.current->error_number = 0;
         auto sw = AtomicRunQ(rq).goto_next();
         switch_context(sw.from, sw.to);
-        return rq.current->error_number;
+        return consume_error_number(rq.current);
     }
 
     __attribute__((noinline))
@@ -1360,7 +1367,7 @@ insert_list:
         if_update_now();
         rq.current->error_number = 0;
         switch_context(sw.from, sw.to);
-        return rq.current->error_number;
+        return consume_error_number(rq.current);
     }
 
     __attribute__((always_inline)) inline
